@@ -30,8 +30,16 @@ cp $SRC/patch.diff $SRC/demo.py seeded/$NAME/
 python3 - "$PROP" "$NAME" "$clean_demo" "$patched_demo" "$tests_rc" "$rc" "$vline" "$sig" "$TESTS" <<'PY'
 import json, sys
 prop, name, cd, pd, trc, rc, vline, sig, tests = sys.argv[1:10]
+conf = {"demo_exit_clean": int(cd), "demo_exit_patched": int(pd), "tests_run": tests, "tests_exit_patched": trc}
+try:  # a re-run without test files keeps the record of the first confirmation
+    prev = json.load(open("seeded/%s/meta.json" % name)).get("confirmed", {})
+    if trc == "skipped" and prev.get("tests_exit_patched") not in (None, "skipped"):
+        conf["tests_run"], conf["tests_exit_patched"] = prev["tests_run"], prev["tests_exit_patched"]
+        conf["tests_note"] = "test files run when the seed was first confirmed (the later re-run only repeated demo and check)"
+except (OSError, ValueError):
+    pass
 meta = {"property": prop, "name": name,
-        "confirmed": {"demo_exit_clean": int(cd), "demo_exit_patched": int(pd), "tests_run": tests, "tests_exit_patched": trc},
+        "confirmed": conf,
         "what_i_ran": "scratch copy of /repo HEAD; demo.py on the clean copy and on the patched copy; the listed test files on the patched copy inside a private network namespace; VERIF_REPO=<patched copy> ./check %s quick" % prop,
         "check": {"exit": int(rc), "violation_line": vline, "replay_summary": sig},
         "detected": int(rc) == 1}
